@@ -3,7 +3,7 @@ outside the reach of the contracts (reported in every evidence file)."""
 
 PROPS = {
     "C04": dict(
-        units=["G1"],
+        units=["G1", "G2", "G3"],
         level="proof",
         level_text="Accept <=> inside is a postcondition of the real validation functions, discharged for every u32/f64/usize "
                    "argument (Verus on the extracted check_crop_box; loop-free Kani harnesses over full-domain symbolic inputs on "
